@@ -468,7 +468,9 @@ def r_qha_settings(ctx, model):
     ev = Ev(model, {("cij.core.qha_adapter:QHACalculator", "__new__"): ctor}, intr, ctx=ctx)
     ev.ext_values = {"qha.settings.DEFAULT_SETTINGS": lib_defaults, "qha.calculator.DEFAULT_SETTINGS": lib_defaults}
     try:
-        ev.call_def(f, model.mods["cij.core.qha_adapter"], ref, [marker(user), Opaque("qha_input")], {})
+        from ..sym import ClsV
+        loader = ev.get_attr(ClsV("cij.core.qha_adapter:QHACalculatorAdapter"), "_load_qha_calculator")      # static, class or plain function alike
+        ev.call(loader, [marker(user), Opaque("qha_input")], {})
     except _Stop:
         pass
     got = cap.get("settings")
